@@ -20,6 +20,10 @@ def vspec(kind, p):
         return ("list", [("leaf", p + "i"), ("const", []), ("const", "")]), [(p + "i", "int")]
     if kind == "dict":
         return ("dict", {"k": ("leaf", p + "s"), "e": ("const", {}), "n": ("const", None)}), [(p + "s", "str")]
+    if kind == "jcdict":
+        # plain data when class translation is off: a dictionary that merely looks like a class descriptor
+        return (("dict", {"__jsonclass__": ("list", [("const", "collections.OrderedDict"), ("const", [])]), "v": ("leaf", p + "i")}),
+                [(p + "i", "int")])
     if kind == "nested":
         return (("list", [("list", [("leaf", p + "i"), ("const", False)]), ("dict", {"k": ("list", [("leaf", p + "s")])})]),
                 [(p + "i", "int"), (p + "s", "str")])
@@ -84,6 +88,29 @@ def obligations(tier, H):
                     shape.update(style)
                     shape.update({"name": (ci + si + ai + rep) % len(H.NAMES), "args": args, "kwargs": kwargs, "ret": rspec})
                     add(shape, leaves)
+    # ---- translation off: descriptor look-alikes are plain data in both directions ---------
+    for ci, cfg in enumerate(configs):
+        if cfg["jsonclass"]:
+            continue
+        if not thorough and cfg["server"] != "bare" and (cfg["sver"], cfg["cver"]) != (2.0, None):
+            continue
+        for si, style in enumerate(({"style": "call"}, {"style": "batch", "n": 2, "pos": 1, "neigh": ["call", "call"]})):
+            for ai, (akinds, kkinds, rkind) in enumerate(((("jcdict",), {}, "int"), (("int",), {}, "jcdict"), ((), {"a": "jcdict"}, "jcdict"))):
+                leaves, args, kwargs = [], [], {}
+                for k, kind in enumerate(akinds):
+                    spec, lv = vspec(kind, "a{0}".format(k))
+                    args.append(spec)
+                    leaves += lv
+                for key, kind in kkinds.items():
+                    spec, lv = vspec(kind, "k" + key)
+                    kwargs[key] = spec
+                    leaves += lv
+                rspec, lv = vspec(rkind, "r")
+                leaves += lv
+                shape = dict(cfg)
+                shape.update(style)
+                shape.update({"name": (ci + si + ai) % len(H.NAMES), "args": args, "kwargs": kwargs, "ret": rspec, "lookalike": True})
+                add(shape, leaves)
     return obs
 
 
@@ -98,13 +125,14 @@ def run(report, tier):
         "dotted call, batch of 1-3 with the call at each position among calls or notifications} x argument "
         "structure {0-3 positional | 1-2 keywords} x method name from a table) with the value kind of every "
         "argument and of the return value rotating over 14 kinds (int, str, bool, float leaves symbolic; "
-        "null, '', 0, False, [], {}, 2^53; lists, dicts and two-level nestings holding symbolic leaves). "
+        "null, '', 0, False, [], {}, 2^53; lists, dicts and two-level nestings holding symbolic leaves; with translation off also dictionaries that look like "
+        "class descriptors, as argument, keyword argument and return value). "
         "Oracle: the callable's log has exactly one entry with normalise(args)/kwargs (typed equality), the "
         "proxy returns normalise(result), History holds exactly the texts handed to and returned by the "
         "transport, in order."
     )
     report.bounds = {"arguments": "<= 3 positional or <= 2 keywords; nesting depth <= 2", "batch": "n <= 3", "strings": "len <= 2/3",
-                     "names": "table of 11 (identifier, dotted, non-ASCII, dict-method name, with space, proxy-attribute look-alikes)"}
+                     "names": "table of 14 (identifier, dotted, non-ASCII, dict-method name, with space, proxy-attribute look-alikes, names beginning or ending with two underscores)"}
     report.outside = ["TCP and Unix-socket transports and a serving pooled server (real sockets/threads): loopback only",
                       "the JSON codec's text<->value mapping (token codec)", "free symbolic method names (getattr/hash realise them)"]
     report.assumptions = ["token codec stub", "loopback transport", "uuid stub", "logging disabled"]
